@@ -3,12 +3,23 @@
  * block is outside what the groups using this model do (asserted, so it cannot go unnoticed). */
 #ifndef VF_ALLOC_MODELS_H
 #define VF_ALLOC_MODELS_H
+#ifdef VF_REALLOC_MOVES
+/* general form used where the content of the block does not matter to the obligations (gds_info):
+ * a fresh block whose content is unspecified; the old block is released */
+void *realloc(void *ptr, size_t size) {
+    void *n = malloc(size);
+    __CPROVER_assume(n != NULL);
+    if (ptr != NULL) free(ptr);
+    return n;
+}
+#else
 void *realloc(void *ptr, size_t size) {
     __CPROVER_assert(ptr == NULL, "model limit: realloc is only modelled for a NULL block");
     void *n = malloc(size);
     __CPROVER_assume(n != NULL);
     return n;
 }
+#endif
 /* calloc: CBMC's library model may return NULL even with --no-malloc-may-fail; gdstk never checks the
  * result of allocate_clear (allocation failure is outside every property), so: a fresh zeroed block */
 void *calloc(size_t n, size_t size) {
